@@ -17,8 +17,10 @@ Fixpoint dget (k : str) (d : pydict) : option mval :=
 Definition dhas (k : str) (d : pydict) : bool := match dget k d with Some _ => true | None => false end.
 Fixpoint dset (k : str) (v : mval) (d : pydict) : pydict :=
   match d with [] => [(k, v)] | (k', v') :: r => if str_eqb k k' then (k', v) :: r else (k', v') :: dset k v r end.
+(** [del d[k]]: keys of a Python dict are unique, so removing every entry filed under [k] is the
+    same thing on every dict that can exist, and leaves no entry under [k] on any list *)
 Fixpoint ddel (k : str) (d : pydict) : pydict :=
-  match d with [] => [] | (k', v') :: r => if str_eqb k k' then r else (k', v') :: ddel k r end.
+  match d with [] => [] | (k', v') :: r => if str_eqb k k' then ddel k r else (k', v') :: ddel k r end.
 Definition dtruthy (d : pydict) : bool := match d with [] => false | _ => true end.
 Definition nonempty {A} (l : list A) : bool := match l with [] => false | _ => true end.
 
@@ -150,9 +152,9 @@ Definition section_insertion_index (s : str) (secs : list str) : nat :=
                 end
       end
   end.
-Definition insert_section (s : str) (d : data) : data :=
-  if smem s (sections d) then d
-  else set_sections (insert_at (section_insertion_index s (sections d)) s (sections d)) d.
+Definition ins_sec (s : str) (secs : list str) : list str :=
+  if smem s secs then secs else insert_at (section_insertion_index s secs) s secs.
+Definition insert_section (s : str) (d : data) : data := set_sections (ins_sec s (sections d)) d.
 
 (** get_present_sections: which keywords have data *)
 Definition data_present (d : data) (k : str) : bool :=
@@ -287,14 +289,17 @@ Definition gens_to_tough2 (d : data) : data * list (str * str) :=
 
 (** * SHORT <-> FOFT / COFT / GOFT *)
 Definition grid_has_block (d : data) (n : str) : bool := existsb (fun b => str_eqb n (b_name b)) (grid_blocks d).
+
 Definition grid_has_conn (d : data) (a b : str) : bool := existsb (fun c => str_eqb a (fst c) && str_eqb b (snd c)) (grid_conns d).
-Definition block_item (d : data) (n : str) : item := if grid_has_block d n then IBlock n else IName n.
-Fixpoint short_gen_blocks (d : data) (l : list item) (acc : list item) : res (list item) :=
+Definition has_block (gb : list blockrec) (n : str) : bool := existsb (fun b => str_eqb n (b_name b)) gb.
+Definition block_item (gb : list blockrec) (n : str) : item := if has_block gb n then IBlock n else IName n.
+(** the loop over short_output['generator']; it reads the grid's block dict and the generators' block names *)
+Fixpoint short_gen_blocks (gb : list blockrec) (h : list genrec) (l : list item) (acc : list item) : res (list item) :=
   match l with
   | [] => Ok acc
   | IGen id :: r =>
-      let blk := block_item d (g_block (hget id (heap d))) in
-      short_gen_blocks d r (if item_mem blk acc then acc else acc ++ [blk])
+      let blk := block_item gb (g_block (hget id h)) in
+      short_gen_blocks gb h r (if item_mem blk acc then acc else acc ++ [blk])
   | IConn _ _ :: _ => Raise TypeError
   | _ :: _ => Raise AttributeError
   end.
@@ -303,7 +308,7 @@ Definition convert_short_to_history (d : data) : res data :=
   let d1 := match so_block so with Some l => set_hist_block l d | None => d end in
   let d2 := match so_conn so with Some l => set_hist_conn l d1 | None => d1 end in
   do d3 <- match so_gen so with
-           | Some l => do blks <- short_gen_blocks d2 l []; Ok (set_hist_gen blks d2)
+           | Some l => do blks <- short_gen_blocks (grid_blocks d2) (heap d2) l []; Ok (set_hist_gen blks d2)
            | None => Ok d2
            end;
   Ok (set_short_output short_empty d3).
